@@ -51,12 +51,13 @@ pub enum Ep {
 }
 
 impl Ep {
-    async fn build(entry: &str, variant: u64, tpl: &str) -> Result<Ep, String> {
+    async fn build(entry: &str, variant: u64, tpl: &str, stays_pre: bool) -> Result<Ep, String> {
         match entry {
             "turn_udp" => Ok(Ep::Turn(turn::Ep::build(false).await?)),
             "turn_tcp" => Ok(Ep::Turn(turn::Ep::build(true).await?)),
-            "dtls_server" => Ok(Ep::Dtls(dtls::Ep::build(false).await?)),
-            "dtls_client" => Ok(Ep::Dtls(dtls::Ep::build(true).await?)),
+            "dtls_server" => Ok(Ep::Dtls(dtls::Ep::build(false, false).await?)),
+            // second concretisation of the pre-handshake phase: the client has been through a HelloVerifyRequest
+            "dtls_client" => Ok(Ep::Dtls(dtls::Ep::build(true, stays_pre && variant % 2 == 1).await?)),
             // the victim is the SCTP server in the first concretisation and the client in the second
             "sctp" => Ok(Ep::Sctp(sctp::Ep::build(variant % 2 == 1).await?)),
             "pc_sdp" => Ok(Ep::Pc(pc::Ep::build(false, pc::mode_for(tpl)).await?)),
@@ -140,10 +141,18 @@ impl Ep {
 
 /// Bring a fresh endpoint of `entry` through the history `pre` (progress / earlier feeds).
 async fn prepare(ctx: &Ctx, entry: &str, pre: &[Value], ci: usize, depth: u64, final_tpl: &str) -> Result<Ep, String> {
-    let mut ep = Ep::build(entry, depth, final_tpl).await?;
+    let stays_pre = !pre.iter().any(|o| o["op"] == "progress");
+    let mut ep = Ep::build(entry, depth, final_tpl, stays_pre).await?;
+    let mut fed = false;
     for (k, op) in pre.iter().enumerate() {
         match op["op"].as_str().unwrap_or("") {
-            "progress" => ep.progress(op["to"].as_str().unwrap(), depth, final_tpl).await?,
+            "progress" => {
+                if let Err(e) = ep.progress(op["to"].as_str().unwrap(), depth, final_tpl).await {
+                    // after an earlier (mutated) input the genuine traffic may be unable to carry the connection on:
+                    // that history does not exist on the implementation
+                    return Err(if fed { format!("unreachable: {e}") } else { e });
+                }
+            }
             "feed" => {
                 let tpl = op["tpl"].as_str().unwrap();
                 let leaves = ctx.grammars.get(tpl).ok_or("no grammar")?;
@@ -154,6 +163,7 @@ async fn prepare(ctx: &Ctx, entry: &str, pre: &[Value], ci: usize, depth: u64, f
                 if let Some(input) = g.concretise(leaves, idx, op["mut"].as_str().unwrap(), Some(&mut rng)) {
                     let input = ep.prepare_input(input, op["field"].as_str().unwrap());
                     ep.feed(&input).await;
+                    fed = true;
                 }
             }
             _ => {}
@@ -187,7 +197,7 @@ async fn one_run(ctx: &Ctx, entry: &str, pre: &[Value], ci: usize, tpl: &str, cl
     let peak = meter::alloc_peak_since(base);
     let o = ep.observe();
     let panics = meter::take_panics();
-    let alive = if o.task_panic.is_none() { ep.still_alive().await } else { None };
+    let alive = if o.task_panic.is_none() && variant == 0 { ep.still_alive().await } else { None };
     let mut res: &'static str = "value";
     let mut detail = String::new();
     if let Some(p) = &o.task_panic {
@@ -219,7 +229,7 @@ pub async fn run_case(ctx: &Ctx, st: &mut State, ci: usize, c: &Value) -> Value 
     let idx = c["idx"].as_u64().unwrap() as usize - 1;
     let pre: Vec<Value> = c["pre"].as_array().cloned().unwrap_or_default();
     // genuine message at this phase: conformance + accepted without incident
-    let key = (entry.to_string(), tpl.to_string(), phase.to_string());
+    let key = (entry.to_string(), tpl.to_string(), format!("{phase}|{}", c["pre"]));
     if !st.baseline_done.contains(&key) {
         st.baseline_done.insert(key);
         let b = match one_run(ctx, entry, &pre, ci, tpl, None, 0).await {
@@ -228,7 +238,9 @@ pub async fn run_case(ctx: &Ctx, st: &mut State, ci: usize, c: &Value) -> Value 
             Ok(None) => json!({"type": "baseline", "tpl": tpl, "entry": entry, "phase": phase, "conforms": false, "detail": "no input"}),
             Err(e) => json!({"type": "baseline", "tpl": tpl, "entry": entry, "phase": phase, "conforms": false, "detail": e}),
         };
-        st.baselines.push(b);
+        if !b["detail"].as_str().unwrap_or("").starts_with("unreachable:") {
+            st.baselines.push(b);
+        }
     }
     let mut worst: Option<Value> = None;
     let mut runs = 0;
@@ -252,6 +264,7 @@ pub async fn run_case(ctx: &Ctx, st: &mut State, ci: usize, c: &Value) -> Value 
                 }
             }
             Ok(None) => {}
+            Err(e) if e.starts_with("unreachable:") => return json!({"res": "unreachable", "detail": e, "runs": runs}),
             Err(e) => return json!({"res": "setup_failed", "detail": e, "runs": runs}),
         }
     }
@@ -266,7 +279,7 @@ pub async fn run_case(ctx: &Ctx, st: &mut State, ci: usize, c: &Value) -> Value 
 
 /// Development aid: `inputs --probe <entry> <phase> <tpl>` runs the genuine message through one endpoint and prints what happened.
 pub async fn probe(entry: &str, phase: &str, tpl: &str, variant: u64) {
-    let mut ep = match Ep::build(entry, variant, tpl).await {
+    let mut ep = match Ep::build(entry, variant, tpl, phase == "pre").await {
         Ok(e) => e,
         Err(e) => {
             println!("build failed: {e}");
